@@ -75,6 +75,13 @@ var precedences = map[token.Type]int{
 	token.PERIOD:         INDEX,
 }
 
+// maxDepth is the deepest nesting of expressions and blocks we will parse.
+//
+// The parser is recursive, and the stack of a goroutine is finite: without
+// a limit a (huge) script consisting of a million opening brackets would
+// take the whole process down, rather than being rejected.
+const maxDepth = 10000
+
 // Parser is the object which maintains our parser state.
 //
 // We consume tokens, produced by our lexer, and so we need to
@@ -117,6 +124,9 @@ type Parser struct {
 
 	// Are we inside a function?
 	function bool
+
+	// How deeply nested is the expression we're parsing?
+	depth int
 }
 
 // New returns a new parser.
@@ -313,6 +323,17 @@ func (p *Parser) parseExpressionStatement() *ast.ExpressionStatement {
 
 // parse an expression.
 func (p *Parser) parseExpression(precedence int) ast.Expression {
+
+	// Everything which nests comes through here, so this
+	// is where we keep track of the depth.
+	p.depth++
+	defer func() { p.depth-- }()
+	if p.depth > maxDepth {
+		msg := fmt.Sprintf("the program is nested too deeply around %s", p.curToken.Position())
+		p.errors = append(p.errors, msg)
+		return nil
+	}
+
 	postfix := p.postfixParseFns[p.curToken.Type]
 	if postfix != nil {
 		return (postfix())
